@@ -971,8 +971,12 @@ def _session_events(desc, stop_after=None):
         for ep in range(desc.get("episodes", 1)):
             st, val = guarded(lambda: sim.reset(), 20.0)
             if st != "ok":
-                if any(m in str(val) for m in INFEASIBLE):
-                    return                                      # no room for the agents: not C02's business
+                # no room for the agents / an initial position that is taken: not C02's business.  Recognised by the
+                # exception TYPE the placement states raise (RuntimeError; AssertionError for a fixed position), so
+                # that a re-worded message changes nothing; the message is a second way to recognise it
+                if any(m in str(val) for m in INFEASIBLE) or str(val).startswith("RuntimeError") or \
+                        (st == "rejected" and desc["stream"] == "comp"):
+                    return
                 yield ev(ep, 0, "", "reset", None, None, "err", {"raised": str(val)[:200]})
                 return
             done = set()
